@@ -23,6 +23,7 @@ def run(ctx):
     if sl is None:
         r1.violate("C15|R1|anchor-missing", "status-line parser not found")
     else:
+        sl = ctx.inl(sl)         # `find_status(code)`, `is_supported_http_version(v)`: private helpers are part of the parser (A11)
         du = du_of(sl)
         for ob in ok_return_blocks(sl) or [None]:
             if ob is None:
@@ -30,10 +31,10 @@ def run(ctx):
                 break
             tests = tests_dominating(sl, ob)
             need = {
-                "version-known": lambda c, tr, v: c.endswith("::contains") and tr is True and deep_mentions(du, v, "version_list"),
-                "status-found": lambda c, tr, v: c.endswith("::is_none") and tr is False and deep_mentions(du, v, "::find"),
-                "reason-equal": lambda c, tr, v: ("PartialEq" in c or c.endswith("::eq")) and tr is True,
-                "code-numeric": lambda c, tr, v: c.endswith("::is_err") and tr is False and deep_mentions(du, v, "::parse"),
+                "version-known": lambda c, tr, v: c.endswith(("::contains", "::any")) and tr is True and deep_mentions(du, v, "version_list"),
+                "status-found": lambda c, tr, v: ((c.endswith("::is_none") and tr is False) or (c.endswith("::is_some") and tr is True)) and deep_mentions(du, v, "::find"),
+                "reason-equal": lambda c, tr, v: (("PartialEq" in c and not c.endswith("::ne")) or c.endswith("::eq")) and tr is True or (c.endswith("::ne") and tr is False),
+                "code-numeric": lambda c, tr, v: ((c.endswith("::is_err") and tr is False) or (c.endswith("::is_ok") and tr is True)) and deep_mentions(du, v, "::parse"),
             }
             # the reason test is stored in a bool local: accept a dominating switch on a plain bool local whose defs compare phrases
             for label, pred in need.items():
